@@ -37,9 +37,19 @@ def _unit_worker(job):
         out['key'] = contract.key
         out['sha'] = eng.fn(contract.key).sha if contract.key in eng.funcs else None
         out['deps'] = {k: eng.funcs[k].sha for k in getattr(contract, 'reads', lambda: [])() if k in eng.funcs}
-        obs, stats = eng.run_paths(lambda ctx: contract.setup(ctx, variant), contract.body, contract.finish)
+        canaries = []
+
+        def finish_with_canary(ctx, call, outcome):
+            # vacuity guard ("smoke test"): `False` must NOT follow from the hypotheses and the path condition
+            if len(canaries) < 4 or (outcome[0] == 'raise' and not any(k == outcome[1] for k, _ in canaries)):
+                from pyvc.interp import Obligation
+                canaries.append((outcome[0] if outcome[0] == 'return' else outcome[1],
+                                 Obligation('canary.false', z3.BoolVal(False), ctx.hyps + ctx.pc, kind='canary', path=list(ctx.trace))))
+            contract.finish(ctx, call, outcome)
+        obs, stats = eng.run_paths(lambda ctx: contract.setup(ctx, variant), contract.body, finish_with_canary)
         out['stats'] = {k: v for k, v in stats.items()}
         out['gen_s'] = time.time() - t0
+        out['n_generated'] = len(obs)
         idx = 0
         nfail = {}
         for ob in obs:
@@ -68,6 +78,12 @@ def _unit_worker(job):
                 if res['status'] != 'discharged' or len(out['results']) < 3:
                     rec['goal'] = str(g)[:600]
                 out['results'].append(rec)
+        live = 0
+        for kind_, ob in canaries:
+            r = solve_one((0, to_smt2(ob.hyps, ob.goal), 1500, False))
+            if r['status'] != 'discharged':
+                live += 1
+        out['canary'] = {'path_ends_probed': len(canaries), 'not_vacuous': live}
         out['wall_s'] = time.time() - t0
     except Exception:
         out['error'] = traceback.format_exc()
